@@ -17,6 +17,8 @@ pub struct WatchMode<T: Transport> {
     source: PathBuf,
     destination: PathBuf,
     debounce: Duration,
+    /// --json: standard output carries JSON objects only, the status lines below are left out
+    json: bool,
 }
 
 impl<T: Transport + 'static> WatchMode<T> {
@@ -31,7 +33,15 @@ impl<T: Transport + 'static> WatchMode<T> {
             source,
             destination,
             debounce,
+            json: false,
         }
+    }
+
+    /// With `--json` every line on standard output has to be a JSON object: the status lines of
+    /// the loop ("Watching ...", "Changes detected ...") are not printed then
+    pub fn with_json(mut self, json: bool) -> Self {
+        self.json = json;
+        self
     }
 
     pub async fn watch(&self) -> Result<()> {
@@ -45,10 +55,12 @@ impl<T: Transport + 'static> WatchMode<T> {
         tracing::info!("Running initial sync...");
         self.engine.sync(&self.source, &self.destination).await?;
 
-        println!(
-            "\n🔍 Watching {} for changes (Ctrl+C to stop)...\n",
-            self.source.display()
-        );
+        if !self.json {
+            println!(
+                "\n🔍 Watching {} for changes (Ctrl+C to stop)...\n",
+                self.source.display()
+            );
+        }
 
         // Event loop with debouncing
         let mut pending_changes = Vec::new();
@@ -62,7 +74,9 @@ impl<T: Transport + 'static> WatchMode<T> {
             // Check for Ctrl+C
             tokio::select! {
                 _ = &mut ctrl_c => {
-                    println!("\n⏹️  Stopping watch mode...");
+                    if !self.json {
+                        println!("\n⏹️  Stopping watch mode...");
+                    }
                     break;
                 }
                 _ = tokio::time::sleep(Duration::from_millis(10)) => {
@@ -85,11 +99,15 @@ impl<T: Transport + 'static> WatchMode<T> {
                     // Check if we should sync (debounce timeout reached)
                     if !pending_changes.is_empty() && last_sync.elapsed() >= self.debounce {
                         tracing::info!("Detected {} changes, syncing...", pending_changes.len());
-                        println!("📝 Changes detected, syncing...");
+                        if !self.json {
+                            println!("📝 Changes detected, syncing...");
+                        }
 
                         match self.engine.sync(&self.source, &self.destination).await {
                             Ok(_) => {
-                                println!("✓ Sync complete\n");
+                                if !self.json {
+                                    println!("✓ Sync complete\n");
+                                }
                             }
                             Err(e) => {
                                 eprintln!("✗ Sync failed: {}\n", e);
